@@ -54,7 +54,12 @@ def enabled_ops(order, lay, ops):
 
 def _expand(args):
     lay, path, ops, ordered, leafcap = args
-    mesh = ml.replay(lay, path)
+    try:
+        mesh = ml.replay(lay, path)
+    except Exception as ex:
+        # the same history succeeded before (that is how this path was found): a fresh mesh object now behaves differently,
+        # i.e. some state outlived the earlier mesh objects of this process
+        return {"path": path, "order": None, "problems": [], "succ": [], "ev": None, "replay_exc": "%s: %s" % (type(ex).__name__, str(ex)[:120])}
     order, problems = ml.observe(mesh, lay)
     res = {"path": path, "order": order, "problems": problems, "succ": [], "ev": None}
     if order is None:
@@ -66,8 +71,12 @@ def _expand(args):
         res["problems"].append(("one-irregular", "levels of edge neighbours differ by more than one: %r"
                                 % (ml.one_irregular(set(order), lay)[:2],)))
     for op in enabled_ops(order, lay, ops):
-        m2 = ml.replay(lay, path)
         exc = None
+        try:
+            m2 = ml.replay(lay, path)
+        except Exception as ex:
+            res["replay_exc"] = "%s: %s" % (type(ex).__name__, str(ex)[:120])
+            break
         try:
             ml.apply_op(m2, lay, op)
         except AssertionError as ex:
@@ -102,6 +111,7 @@ def explore(lay, ops, budget, ordered=False, procs=16, max_states=2_000_000):
     edges = set()
     problems = []
     fails = []
+    replay_fails = []
     out_of_model = 0
     frontier = [()]
     first = True
@@ -112,6 +122,8 @@ def explore(lay, ops, budget, ordered=False, procs=16, max_states=2_000_000):
             results = pool.map(_expand, jobs, chunksize=max(1, len(jobs) // (procs * 8))) if pool else list(map(_expand, jobs))
             nxt = []
             for r in results:
+                if r.get("replay_exc"):
+                    replay_fails.append((r["path"], r["replay_exc"]))
                 if r["order"] is None:
                     problems.append((r["path"], r["problems"]))
                     continue
@@ -159,7 +171,7 @@ def explore(lay, ops, budget, ordered=False, procs=16, max_states=2_000_000):
         if pool:
             pool.close()
             pool.join()
-    return {"states": seen, "events": events, "edges": edges, "problems": problems, "fails": fails,
+    return {"states": seen, "events": events, "edges": edges, "problems": problems, "fails": fails, "replay_fails": replay_fails,
             "out_of_model": out_of_model}
 
 
